@@ -102,6 +102,8 @@ Section Model.
   Variable acc : typ -> member -> bool -> bool.
   Variable narrow : typ -> member -> list member.
   Variable posof : var -> posn.
+  (* is the member Any (a universally assignable value that a permissive match converts) *)
+  Variable isany : member -> bool.
 
   (* visit_is_of_type + decompose_union *)
   Definition is_of_type (rho : varmap) (v : var) (T : typ) (ex : bool) : cret :=
@@ -144,9 +146,11 @@ Section Model.
     end.
 
   (* visit_block keeps only the bindings of a fall-through varmap that remove
-     members of the variable's current value (no converted values) *)
+     members of the variable's current value (no converted values), and none at
+     all for a variable whose current value has an Any member *)
   Definition only_removals (rho f : varmap) : varmap :=
-    filter (fun b => forallb (fun m => existsb (Nat.eqb m) (get rho (fst b))) (snd b)) f.
+    filter (fun b => negb (existsb isany (get rho (fst b)))
+                     && forallb (fun m => existsb (Nat.eqb m) (get rho (fst b))) (snd b)) f.
 
   (* EvalReturn: None = [None], a Value = [Some r], CombinedReturn cs = cs *)
   Definition eret := list (option rtype).
